@@ -22,6 +22,15 @@ prop("C20",
       "TdmsFile.open() with a malformed file (keep_open=True: the reader is left to the garbage collector; outside the letter of the property)"],
      COMMON_ASSUMPTIONS)
 
+prop("C15",
+     ["BL3", "BL4", "BL1"],
+     "Enumerates every read-side parse site and decides that the segment's byte order reaches it: every struct format prefix, "
+     "every call of a callee with an endianness parameter (default-argument trap included), every dtype used to reinterpret "
+     "file bytes, the three per-segment derivations from the ToC mask (polarity, own mask), absence of a cached byte order on "
+     "long-lived objects, timestamp field order/signedness per byte order and by-name copying when chunks are merged.",
+     ["value equality of the two encodings (follows from the threading plus NumPy/struct semantics, which are trusted)"],
+     COMMON_ASSUMPTIONS)
+
 # ---------------------------------------------------------------------------
 # MANIFEST texts
 LEVEL_TEXT = {
@@ -30,7 +39,11 @@ LEVEL_TEXT = {
            "whose truth is in the shape of the code on every path, which is what a CFG analysis enumerates completely and a "
            "test cannot (one path per malformed input).",
 }
+LEVEL_TEXT["C15"] = ("Claim (structural): byte order is threaded by hand through every parser; the checker enumerates all parse sites "
+                     "(formats, defaulted endianness arguments, dtypes, derivations) and decides each by interprocedural dataflow of the "
+                     "endianness value. A missed site affects one field of one record kind and is invisible to a suite with one big-endian file.")
 TECHNIQUE = {
+    "C15": "static analysis: interprocedural endianness dataflow over the call graph, default-argument trap, layout sibling comparison",
     "C20": "static analysis: CFG with exceptional edges, must-pass-through / dominance queries, ownership (who-may-open/close) rules",
 }
 _PENDING = "check not built yet in this session (planned, DESIGN.md section 4); not claimed until it is"
